@@ -27,12 +27,19 @@ struct Case {
     want: String,
     /// number of structural / byte mutations applied after synthesis (each kept only if the SDK still maps the file)
     mutations: u8,
+    /// spec-valid structural variant applied after synthesis, fully judged: "" | "jpeg-fill" (0xFF fill bytes in
+    /// front of a marker, ITU-T T.81 B.1.1.2)
+    #[serde(default)]
+    tweak: String,
     /// repository fixture instead of a synthesised asset
     #[serde(default)]
     fixture: Option<String>,
     /// explicit asset bytes (regression files): overrides everything else
     #[serde(default)]
     asset_hex: Option<String>,
+    /// the explicit bytes are a mutated (malformed) input: judged like a mutated case
+    #[serde(default)]
+    malformed: bool,
 }
 
 fn formats_of(kind: &str) -> &'static [&'static str] {
@@ -137,7 +144,7 @@ fn mutate(kind: &str, b: &[u8], regions: &[assets::Region], rng: &mut SplitMix64
 
 fn build(c: &Case) -> Result<Asset, String> {
     if let Some(h) = &c.asset_hex {
-        return Ok(Asset { bytes: hex::decode(h).map_err(|e| format!("asset_hex: {e}"))?, desc: "explicit bytes".into(), mutated: vec![] });
+        return Ok(Asset { bytes: hex::decode(h).map_err(|e| format!("asset_hex: {e}"))?, desc: "explicit bytes".into(), mutated: if c.malformed { vec!["explicit malformed input".to_string()] } else { vec![] } });
     }
     let mut rng = SplitMix64::new(c.seed ^ 0xC12);
     let (mut bytes, desc, regions) = if let Some(f) = &c.fixture {
@@ -163,6 +170,18 @@ fn build(c: &Case) -> Result<Asset, String> {
         let s = last.unwrap();
         (s.bytes, s.desc, s.regions)
     };
+    let mut desc = desc;
+    if c.tweak == "jpeg-fill" {
+        if let Ok(units) = walk::walk(&c.kind, &bytes) {
+            let cands: Vec<&walk::Unit> = units.iter().skip(1).filter(|u| !["scan", "trailing", "fill"].contains(&u.kind.as_str()) && !u.kind.starts_with("RST")).collect();
+            if !cands.is_empty() {
+                let u = cands[rng.usize(cands.len())];
+                let k = 1 + rng.usize(4);
+                bytes.splice(u.start..u.start, std::iter::repeat(0xFFu8).take(k));
+                desc = format!("{desc}, {k} fill byte(s) before {} @{}", u.kind, u.start);
+            }
+        }
+    }
     let mut mutated = vec![];
     if c.mutations > 0 {
         for _ in 0..c.mutations {
@@ -182,6 +201,22 @@ fn build(c: &Case) -> Result<Asset, String> {
 
 fn selftest() -> u8 {
     std::env::var("VERIF_SELFTEST").ok().and_then(|v| v.parse().ok()).unwrap_or(0)
+}
+
+static MKREG: std::sync::Mutex<std::collections::BTreeMap<String, (usize, serde_json::Value)>> = std::sync::Mutex::new(std::collections::BTreeMap::new());
+
+/// `C12_MKREG=1`: remember, per signature, the failing case with the smallest asset as explicit bytes (development
+/// aid for writing regression files with concrete inputs).
+fn mkreg(c: &Case, a: &Asset, f: &Fail) {
+    if std::env::var("C12_MKREG").is_err() {
+        return;
+    }
+    let mut g = MKREG.lock().unwrap();
+    if g.get(&f.signature).map(|(n, _)| a.bytes.len() < *n).unwrap_or(true) {
+        let case = Case { asset_hex: Some(hex::encode(&a.bytes)), fixture: None, mutations: 0, tweak: String::new(), malformed: !a.mutated.is_empty(), ..c.clone() };
+        let check = if c.fixture.is_some() { "fixtures".to_string() } else { format!("layout:{}", c.kind) };
+        g.insert(f.signature.clone(), (a.bytes.len(), json!({"check": check, "signature": f.signature, "what": f.what, "note": format!("{}{}", a.desc, if a.mutated.is_empty() { String::new() } else { format!("; mutated: {}", a.mutated.join(" | ")) }), "case": case})));
+    }
 }
 
 fn survey() -> bool {
@@ -268,14 +303,14 @@ fn judge_box_map(run: &Run, c: &Case, a: &Asset, fails: &mut Vec<Fail>) {
     // --- at most one C2PA entry
     let n_c2pa = map.iter().filter(|e| is_c2pa(e)).count();
     run.count(&format!("{kind}:boxmap:c2pa-entries:{n_c2pa}"));
-    if n_c2pa > 1 {
-        fails.push(Fail::new(format!("C12:boxmap-multiple-c2pa:{kind}"), format!("{n_c2pa} entries named C2PA {}", ctx())));
-    }
+    let mutated = !a.mutated.is_empty();
+    // classes that only malformed (mutated) inputs show keep their own signatures
+    let mal = if mutated { ":malformed-input" } else { "" };
     // --- order, overlap, bounds
     for w in map.windows(2) {
         let (x, y) = (&w[0], &w[1]);
         if y.1 < x.1 {
-            fails.push(Fail::new(format!("C12:boxmap-unordered:{kind}"), format!("entry {} at {} follows entry {} at {} {}", names(y), y.1, names(x), x.1, ctx())));
+            fails.push(Fail::new(format!("C12:boxmap-unordered:{kind}{mal}"), format!("entry {} at {} follows entry {} at {} {}", names(y), y.1, names(x), x.1, ctx())));
             break;
         }
     }
@@ -286,13 +321,13 @@ fn judge_box_map(run: &Run, c: &Case, a: &Asset, fails: &mut Vec<Fail>) {
         if x.2 > 0 && y.2 > 0 && x.1.saturating_add(x.2) > y.1 {
             let rst = |e: &Entry| e.0.first().map(|n| n.starts_with("RST")).unwrap_or(false);
             let sos = |e: &Entry| e.0.first().map(|n| n == "SOS").unwrap_or(false);
-            let sig = if kind == "jpeg" && ((sos(x) && rst(y)) || (rst(x) && sos(y))) { "C12:jpeg-rst-overlaps-sos".to_string() } else { format!("C12:boxmap-overlap:{kind}") };
+            let sig = if kind == "jpeg" && ((sos(x) && rst(y)) || (rst(x) && sos(y))) { "C12:jpeg-rst-overlaps-sos".to_string() } else { format!("C12:boxmap-overlap:{kind}{mal}") };
             fails.push(Fail::new(sig, format!("entries {} [{},{}) and {} [{},{}) share bytes {}", names(x), x.1, x.1 + x.2, names(y), y.1, y.1.saturating_add(y.2), ctx())));
             break;
         }
     }
     if let Some(e) = map.iter().find(|e| e.1.saturating_add(e.2) > len) {
-        fails.push(Fail::new(format!("C12:boxmap-beyond-file:{kind}"), format!("entry {} [{},{}) ends after the {len}-byte file {}", names(e), e.1, e.1.saturating_add(e.2), ctx())));
+        fails.push(Fail::new(format!("C12:boxmap-beyond-file:{kind}{mal}"), format!("entry {} [{},{}) ends after the {len}-byte file {}", names(e), e.1, e.1.saturating_add(e.2), ctx())));
     }
     // --- coverage
     let covered: Vec<(u64, u64)> = map.iter().map(|e| (e.1, e.1.saturating_add(e.2).min(len))).collect();
@@ -304,28 +339,58 @@ fn judge_box_map(run: &Run, c: &Case, a: &Asset, fails: &mut Vec<Fail>) {
             holes = holes.into_iter().flat_map(|(s, e)| subtract(s, e, &m)).collect();
         }
     }
-    if let Some((s, e)) = holes.first().copied() {
+    if !holes.is_empty() {
         let last_end = covered.iter().map(|c| c.1).max().unwrap_or(0);
         let all: u64 = holes.iter().map(|(s, e)| e - s).sum();
-        let what = format!("{} byte(s) in {} interval(s) are covered by no box map entry, first [{s},{e}) in unit '{}' of the file ({len} bytes, {} entries) {}", all, holes.len(), unit_at(kind, b, s), map.len(), ctx());
-        let trailing_only = holes.len() == 1 && e == len && s >= last_end;
-        if trailing_only {
-            fails.push(Fail::new(format!("C12:boxmap-trailing-bytes-uncovered:{kind}"), what));
-        } else {
-            fails.push(Fail::new(format!("C12:boxmap-gap-uncovered:{kind}"), what));
+        let units = if mutated { None } else { walk::walk(kind, b).ok() };
+        let unit_of = |pos: u64| -> String {
+            match &units {
+                Some(u) => u.iter().find(|u| (u.start as u64) <= pos && pos < (u.start + u.len) as u64).map(|u| u.kind.clone()).unwrap_or_else(|| "?".into()),
+                None => "?".into(),
+            }
+        };
+        // one failure per class of hole
+        let mut seen: Vec<String> = vec![];
+        for (s, e) in &holes {
+            let (s, e) = (*s, *e);
+            let unit = unit_of(s);
+            let all_ff = b[s as usize..e as usize].iter().all(|x| *x == 0xFF);
+            let sig = if unit == "trailing" || (e == len && s >= last_end) {
+                format!("C12:boxmap-trailing-bytes-uncovered:{kind}")
+            } else if kind == "jpeg" && all_ff {
+                format!("C12:boxmap-gap-uncovered:{kind}:fill-bytes")
+            } else if mutated {
+                format!("C12:boxmap-gap-uncovered:{kind}:malformed-input")
+            } else {
+                format!("C12:boxmap-gap-uncovered:{kind}:{unit}")
+            };
+            if seen.contains(&sig) {
+                continue;
+            }
+            seen.push(sig.clone());
+            fails.push(Fail::new(
+                sig,
+                format!("bytes [{s},{e}) (unit '{unit}') are covered by no box map entry; in all {all} byte(s) in {} interval(s) of the {len}-byte file ({} entries) are uncovered {}", holes.len(), map.len(), ctx()),
+            ));
         }
     } else {
         run.count(&format!("{kind}:boxmap:covers-file"));
     }
-    // --- the C2PA entry must not swallow bytes outside the manifest container
-    if let (Some(e), Ok(spans)) = (map.iter().find(|e| is_c2pa(e) && e.2 > 0), walk::manifest_spans(kind, b)) {
-        let m: Vec<(u64, u64)> = spans.iter().map(|(s, l)| (*s as u64, (*s + *l) as u64)).collect();
-        let extra = subtract(e.1, e.1.saturating_add(e.2).min(len), &m);
-        if let Some((s, t)) = extra.first() {
-            fails.push(Fail::new(
-                format!("C12:boxmap-c2pa-entry-covers-other-bytes:{kind}"),
-                format!("the C2PA entry [{},{}) contains bytes [{s},{t}) (unit '{}') that are not part of the manifest container {:?} {}", e.1, e.1 + e.2, unit_at(kind, b, *s), m, ctx()),
-            ));
+    // --- an entry named C2PA is excluded from the hash: it must not contain bytes outside the manifest container
+    // (walker-based, so only judged on well-formed assets)
+    if !mutated {
+        if let Ok(spans) = walk::manifest_spans(kind, b) {
+            let m: Vec<(u64, u64)> = spans.iter().map(|(s, l)| (*s as u64, (*s + *l) as u64)).collect();
+            for e in map.iter().filter(|e| is_c2pa(e) && e.2 > 0) {
+                let extra = subtract(e.1, e.1.saturating_add(e.2).min(len), &m);
+                if let Some((s, t)) = extra.first() {
+                    fails.push(Fail::new(
+                        format!("C12:boxmap-c2pa-entry-not-manifest:{kind}"),
+                        format!("the entry named C2PA [{},{}) contains bytes [{s},{t}) (unit '{}') that are not part of the manifest container {:?}; {n_c2pa} entries are named C2PA {}", e.1, e.1 + e.2, unit_at(kind, b, *s), m, ctx()),
+                    ));
+                    break;
+                }
+            }
         }
     }
 }
@@ -362,29 +427,29 @@ fn judge_locations(run: &Run, c: &Case, a: &Asset, fails: &mut Vec<Fail>) {
     let cai: Vec<&(String, usize, usize)> = locs.iter().filter(|l| l.0 == "Cai").collect();
     run.count(&format!("{kind}:locations:cai-regions:{}", cai.len()));
     if cai.len() != 1 {
-        fails.push(Fail::new(format!("C12:locations-cai-count:{kind}"), format!("{} Cai regions reported {}", cai.len(), ctx())));
+        fails.push(Fail::new(format!("C12:locations-cai-count:{kind}{}", if a.mutated.is_empty() { "" } else { ":malformed-input" }), format!("{} Cai regions reported {}", cai.len(), ctx())));
         return;
     }
+    let mutated = !a.mutated.is_empty();
+    let mal = if mutated { ":malformed-input" } else { "" };
     let (_, co, cl) = cai[0].clone();
     let cend = co.saturating_add(cl);
     // inside the file
     if has_store {
         if cend > len {
-            fails.push(Fail::new(format!("C12:locations-cai-beyond-file:{kind}"), format!("Cai region [{co},{cend}) ends after the {len}-byte file {}", ctx())));
+            fails.push(Fail::new(format!("C12:locations-cai-beyond-file:{kind}{mal}"), format!("Cai region [{co},{cend}) ends after the {len}-byte file {}", ctx())));
         }
-    } else if spans.is_some() && co > len {
-        fails.push(Fail::new(format!("C12:locations-cai-beyond-file:{kind}"), format!("manifest-free asset: the placeholder position {co} lies after the {len}-byte file {}", ctx())));
     }
     // disjoint from the reported non-Cai regions
     for l in locs.iter().filter(|l| l.0 != "Cai") {
         let (s, e) = (l.1, l.1.saturating_add(l.2));
         if l.2 > 0 && cl > 0 && s < cend && co < e {
-            fails.push(Fail::new(format!("C12:locations-cai-overlaps-{}:{kind}", l.0.to_lowercase()), format!("Cai region [{co},{cend}) overlaps the {} region [{s},{e}) {}", l.0, ctx())));
+            fails.push(Fail::new(format!("C12:locations-cai-overlaps-{}:{kind}{mal}", l.0.to_lowercase()), format!("Cai region [{co},{cend}) overlaps the {} region [{s},{e}) {}", l.0, ctx())));
             break;
         }
     }
     // contains nothing but the manifest container
-    if let (true, Some(spans)) = (has_store, &spans) {
+    if let (true, false, Some(spans)) = (has_store, mutated, &spans) {
         let m: Vec<(u64, u64)> = spans.iter().map(|(s, l)| (*s as u64, (*s + *l) as u64)).collect();
         let extra = subtract(co as u64, (cend.min(len)) as u64, &m);
         if let Some((s, t)) = extra.first() {
@@ -440,6 +505,9 @@ fn judge(run: &Run, c: &Case) -> CaseResult {
     if interesting {
         run.nontrivial(c);
     }
+    for f in &fails {
+        mkreg(c, &a, f);
+    }
     if survey() {
         for f in &fails {
             let key = format!("survey:{}{}", f.signature, if a.mutated.is_empty() { "" } else { " (mutated)" });
@@ -466,7 +534,7 @@ fn judge(run: &Run, c: &Case) -> CaseResult {
 }
 
 fn strategy(kind: &'static str, boxhash: bool) -> impl Strategy<Value = Case> {
-    (any::<u64>(), 0usize..2500, 0u8..3, 0usize..2500, 0usize..16, 0usize..16, 0u8..6).prop_map(move |(seed, size, emode, elen, fi, wi, mu)| {
+    (any::<u64>(), 0usize..2500, 0u8..3, 0usize..2500, 0usize..16, 0usize..16, 0u8..6, 0u8..6).prop_map(move |(seed, size, emode, elen, fi, wi, mu, tw)| {
         let existing = if emode == 0 || kind == "c2pa" { None } else { Some(MIN_STORE + elen) };
         let formats = formats_of(kind);
         let wants = wants_of(kind, existing.is_some());
@@ -479,8 +547,10 @@ fn strategy(kind: &'static str, boxhash: bool) -> impl Strategy<Value = Case> {
             want: wants[wi % wants.len()].to_string(),
             // half of the box-hash cases are mutated (1..3 accepted mutations)
             mutations: if boxhash && mu >= 3 { mu - 2 } else { 0 },
+            tweak: if kind == "jpeg" && mu < 3 && tw == 0 { "jpeg-fill".to_string() } else { String::new() },
             fixture: None,
             asset_hex: None,
+            malformed: false,
         }
     })
 }
@@ -491,7 +561,8 @@ fn main() {
     run.set_rule("case = (container kind, format string, synthesised asset with or without an embedded store (seed walk towards a requested knob: JPEG restart markers / second image / trailing bytes / progressive / foreign APP11, PNG trailing data / caBX before IHDR, IEND or IDAT, GIF87a / plain text / graphic control / XMP / trailing, JXL jxlp / size-0 last box / other jumb, sidecar), 0..3 structural mutations (duplicate / swap / delete a unit, junk between units, appended bytes, toolkit byte mutations) each kept only if get_box_map still accepts the file) + repository fixtures. Box map judged for formats with has_box_map, object locations for every kind but BMFF. Non-trivial = asset carries a store, or is mutated, or has one of the layout knobs.");
     run.assume("the manifest container is located by the independent walker (vh::walk::manifest_spans); for inputs the walker cannot parse only the map's own C2PA entry is exempt from coverage");
     run.assume("get_box_map / get_object_locations_from_stream returning an error is acceptable (robustness is C10's subject); panics are judged only on unmutated generated assets");
-    run.assume("manifest-free assets: get_object_locations_from_stream reports the layout after inserting a placeholder of a size the handler chooses, so for them only 'the Cai region starts inside the file' and disjointness are demanded");
+    run.assume("manifest-free assets: get_object_locations_from_stream reports the layout after inserting a placeholder of a size (and, for TIFF / SVG, at a position past the original end) the handler chooses, so for them only disjointness is demanded");
+    run.assume("rules that need the walker's view of the manifest container (an entry named C2PA / the Cai region contains nothing else) are judged on well-formed assets only; mutated inputs are judged by the walker-independent rules (order, overlap, bounds, coverage) under signatures ending in :malformed-input");
     if survey() {
         run.inconclusive("C12_SURVEY=1: failures are only counted, never judged");
     }
@@ -515,7 +586,7 @@ fn main() {
     let fx: Vec<Case> = [("jpeg", "C.jpg"), ("jpeg", "CA.jpg"), ("jpeg", "no_manifest.jpg"), ("jpeg", "IMG_0003.jpg"), ("png", "libpng-test.png"), ("gif", "sample1.gif"), ("jxl", "sample1.jxl"), ("c2pa", "cloud_manifest.c2pa")]
         .iter()
         .filter(|(_, f)| std::path::Path::new(&format!("{}/{}", vh::sdk::FIXTURES, f)).exists())
-        .map(|(k, f)| Case { kind: k.to_string(), format: formats_of(k)[0].to_string(), seed: 0, size_hint: 0, existing: None, want: String::new(), mutations: 0, fixture: Some(f.to_string()), asset_hex: None })
+        .map(|(k, f)| Case { kind: k.to_string(), format: formats_of(k)[0].to_string(), seed: 0, size_hint: 0, existing: None, want: String::new(), mutations: 0, tweak: String::new(), fixture: Some(f.to_string()), asset_hex: None, malformed: false })
         .collect();
     run.extra("fixtures", json!(fx.iter().map(|c| c.fixture.clone().unwrap()).collect::<Vec<_>>()));
     run.drive_enum("fixtures", fx, |c| judge(&run, c));
@@ -530,6 +601,14 @@ fn main() {
         }
         let n = if boxhash { n_box } else if walk::family(kind) == Some("bmff") { n_other / 4 } else { n_other };
         run.drive_par(&format!("layout:{kind}"), n, run.scale(4, 16), strategy(kind, boxhash), |c| judge(&run, c));
+    }
+    if std::env::var("C12_MKREG").is_ok() {
+        let dir = vh::core::verif_root().join("work").join("C12").join("mkreg");
+        let _ = std::fs::create_dir_all(&dir);
+        for (sig, (_, v)) in MKREG.lock().unwrap().iter() {
+            let name: String = sig.chars().map(|ch| if ch.is_ascii_alphanumeric() || ch == '-' || ch == '.' { ch } else { '_' }).collect();
+            let _ = std::fs::write(dir.join(format!("reg-{name}.json")), serde_json::to_string_pretty(v).unwrap());
+        }
     }
     run.finish();
 }
